@@ -1505,7 +1505,7 @@ def run(tier):
         seen.add(kk)
         per_kind[key.get("kind")] += 1
         res.violation(key, detail, "C06: " + what)
-    if not bad:
+    if not res.violations:      # nothing but known findings (or nothing at all) so far
         if not b["ok"]:
             vlib.report_broken_build(res, b, None)
         elif diffs or not okx or not okd:
@@ -1514,6 +1514,8 @@ def run(tier):
                           "correspondence of coq/model/Emit.v (%s) with the implementation no longer holds" % name, no_input=True)
     elif not b["ok"]:
         res.notes.append("proof build broken as well: %s" % (b["errors"][:1] or b["failed_files"]))
+    if diffs:
+        res.notes.append("model/implementation differences: %d, first: %s" % (len(diffs), str(diffs[0])[:600]))
     return res.finish()
 
 
